@@ -66,8 +66,6 @@ def _grammar(ctx: Ctx):
             exp = G.reference_outcome(info, intercept, avail)
         tags = _known_tags(s, intercept)
         if kind.startswith("internal"):
-            if kind == "internal:KeyError" and not intercept and "." in s:
-                continue  # C14's recorded finding; not a C01 matter
             ctx.fail(f"{kind} while parsing {s!r}", rp, tags)
         elif exp[0] == "reject" and kind != "reject":
             ctx.fail(f"{s!r} is outside the documented grammar/algebra but was accepted as {G.struct_to_py(res)}", rp, tags)
